@@ -102,3 +102,42 @@ func VH_C08_bounds_quad_Q() {
 	}
 }
 
+
+// C08: Bounds and FastBounds of flat paths (1-2 subpaths of 1-2 line segments, open or closed,
+// any real coordinates incl. negative ones) are exactly the min/max over all vertices: every
+// vertex (also the MoveTo of a later subpath and the target of a Close) is inside, every side is
+// attained, and the two functions agree.
+func VH_C08_bounds_flat_Q() {
+	p := &Path{}
+	nsub := vChoose(1, 2)
+	for s := 0; s < nsub; s++ {
+		vhRawSubpath(p, vhReal, make([]int, vChoose(1, 2)), vChoose(0, 1))
+	}
+	vAssume(vhWF(p))
+	before := vhCopyData(p.d)
+	b, f := p.Bounds(), p.FastBounds()
+	vAssert("C08.flat.receiver_unchanged", vhSameData(p.d, before))
+	subs, _ := vhDecode(p.d)
+	var pts []Point
+	for _, sb := range subs {
+		pts = append(pts, sb.start)
+		for _, sg := range sb.segs {
+			pts = append(pts, sg.end)
+		}
+	}
+	inside, hitX0, hitX1, hitY0, hitY1 := true, false, false, false, false
+	for _, q := range pts {
+		inside = inside && b.X0 <= q.X && q.X <= b.X1 && b.Y0 <= q.Y && q.Y <= b.Y1
+		hitX0 = hitX0 || q.X == b.X0
+		hitX1 = hitX1 || q.X == b.X1
+		hitY0 = hitY0 || q.Y == b.Y0
+		hitY1 = hitY1 || q.Y == b.Y1
+	}
+	vAssert("C08.flat.contains_every_vertex", inside)
+	vAssert("C08.flat.every_side_attained", hitX0 && hitX1 && hitY0 && hitY1)
+	vAssert("C08.flat.fastbounds_equals_bounds", f.X0 == b.X0 && f.X1 == b.X1 && f.Y0 == b.Y0 && f.Y1 == b.Y1)
+}
+
+// (A harness for the extrema of one cubic - Bounds contains B(t) for symbolic control values and
+// t - was tried and dropped: the queries combine the quadratic formula's square root with a
+// cubic in t and stay unknown; see DESIGN.md.)
